@@ -10,7 +10,8 @@ dump of every program the real compiler produced; the theorems say what an `acce
   of the decode loop (what the VM does) agree on encoded length and stack effect for every opcode, up to
   the exceptions listed and justified in `Bytecode.TableException`.
 * `C02_verifier_sound` — for every program, entry and path of the abstract VM: every state reached is safe.
-* `C02_error_effect` — the height and code position after a script error are the ones the verifier assumed.
+* `C02_error_effect` / `C02_error_effect_partial` — the height and code position after a script error are
+  the ones the verifier assumed.
 -/
 namespace Morfuse.Bytecode
 open Gen
@@ -73,16 +74,31 @@ theorem C02_heights_agree (p : Program) (hv : verify p = true) (e₁ e₂ : Nat)
   simp only [Option.some.injEq, Prod.mk.injEq] at this
   exact ⟨this.1.symm, this.2.symm⟩
 
-/-- **Error paths.**  For every opcode and every way a script error can leave its `case` block - including
-the `catch (...)` repairs of `OP_LOAD_FIELD_VAR`, `OP_STORE_FIELD`, `OP_STORE_FIELD_REF`, `OP_STORE_ARRAY`,
-`loadTop`, `ExecFunction`, `executeCommandInternal<true>` - the height and the code position at that moment
-are the ones of the fall-through path, i.e. what `step` (and so `C02_verifier_sound`) assumed: same net
-height change, the count-dependent parameters popped iff the normal path pops them, all operand bytes of the
-instruction stepped over.  (Model level: `vmErrPaths` is the hand transcription of the source whose text is
-fingerprinted on every run, obligation T2; the real VM's behaviour after errors is compared transition by
-transition in the correspondence.) -/
-theorem C02_error_effect (o : Opcode) (e : ErrPath) (he : e ∈ vmErrPaths o) : errPathOk o e = true :=
-  (List.all_eq_true.mp (forall_opcode_of_all (P := errOk) (by decide) o)) e he
+/-- **Error paths (full statement).**  For every opcode and every way a script error can leave its `case`
+block - including the `catch (...)` repairs of `OP_LOAD_FIELD_VAR`, `OP_STORE_FIELD`, `OP_STORE_FIELD_REF`,
+`OP_STORE_ARRAY`, `loadTop`, `ExecFunction`, `executeCommandInternal<true>` - the height and the code position
+at that moment are the ones of the fall-through path, i.e. what `step` (and so `C02_verifier_sound`) assumed:
+same net height change, the count-dependent parameters popped iff the normal path pops them, all operand
+bytes of the instruction stepped over.  The hypothesis is a closed boolean over `Gen/VmCases.lean`
+(regenerated fingerprints of the source): `true` exactly when every block has a text whose error paths are
+right; the check reports it as a failed obligation, with concrete failing programs, while it is `false`.
+(Model level: `vmErrPaths` is the hand transcription of the fingerprinted source; the real VM's behaviour
+after errors is compared transition by transition in the correspondence.) -/
+theorem C02_error_effect (h : errorPathsRepaired = true) (o : Opcode) (e : ErrPath) (he : e ∈ vmErrPaths o) :
+    errPathOk o e = true :=
+  (List.all_eq_true.mp (forall_opcode_of_all h o)) e he
+
+/-- **Error paths (what holds whichever known text the source has).**  Missing with respect to the full
+statement: `OP_LOAD_FIELD_VAR`, whose group branch (6c30d63) keeps the assigned value on the stack when an
+element of the array is not a listener (finding F6) until notes/C02-suggested-fix-6.diff is applied. -/
+theorem C02_error_effect_partial (o : Opcode) (ho : o ∉ errorPathSuspects) (e : ErrPath) (he : e ∈ vmErrPaths o) :
+    errPathOk o e = true := by
+  have key : Opcode.all.all (fun o => errorPathSuspects.contains o || errOk o) = true := by decide
+  have := forall_opcode_of_all key o
+  simp only [Bool.or_eq_true, List.contains_iff_mem] at this
+  rcases this with h | h
+  · exact absurd h ho
+  · exact (List.all_eq_true.mp h) e he
 
 /-! ## non-vacuity -/
 
@@ -123,7 +139,7 @@ example : vmErrPaths .OP_STORE_ARRAY = [⟨-1, false, some 0⟩] ∧ errOk .OP_S
 example : errPathOk .OP_STORE_OWNER ⟨2, false, some 0⟩ = false ∧ errPathOk .OP_STORE_OWNER ⟨1, false, some 0⟩ = true := by decide
 example : errPathOk .OP_STORE_FIELD_REF ⟨0, false, some 0⟩ = false ∧ errPathOk .OP_STORE_FIELD ⟨0, false, some 16⟩ = false
     ∧ errPathOk .OP_LOAD_LOCAL_VAR ⟨0, false, some 8⟩ = false := by decide
-example : (Opcode.all.filter (fun o => vmErrPaths o ≠ [])).length = 74 := by decide
+example : (Opcode.all.filter (fun o => vmErrPaths o ≠ [])).length = 74 ∧ Opcode.OP_BIN_DIVIDE ∉ errorPathSuspects := by decide
 
 /-- table against VM: a changed length is noticed -/
 example : vmLength .OP_STORE_INT2 = some 3 ∧ Opcode.OP_STORE_INT2.tableLength = 3 := by decide
